@@ -304,6 +304,14 @@ VARIANTS = [
     V("twin: finalizer test written the other way round", ("C04",), "", "core.py",
       '    if agg.finalize is None:\n        finalized[agg.name] = squeezed["intermediates"][0]\n    else:\n        finalized[agg.name] = agg.finalize(*squeezed["intermediates"], **agg.finalize_kwargs)',
       '    if agg.finalize is not None:\n        finalized[agg.name] = agg.finalize(*squeezed["intermediates"], **agg.finalize_kwargs)\n    else:\n        finalized[agg.name] = squeezed["intermediates"][0]', expect="silent"),
+    V("implicit min_count also keyed on the labels being a dask array", ("C12", "C05"), "R-SEMNEUTRAL", "core.py",
+      '(fill_value is not None and (provided_expected or nby > 1))', '(fill_value is not None and (provided_expected or nby > 1 or any_by_dask))', must_mention="any_by_dask"),
+    V("implicit min_count switched off for chunked input through a local flag", ("C12", "C05"), "R-SEMNEUTRAL", "core.py",
+      '        if nax < by_.ndim or (fill_value is not None and (provided_expected or nby > 1)):',
+      '        redundant = has_dask and fill_value == 0\n        if nax < by_.ndim or (fill_value is not None and (provided_expected or nby > 1) and not redundant):', must_mention="has_dask"),
+    V("twin: implicit min_count condition spelled with a local flag over the request only", ("C12", "C05"), "", "core.py",
+      '        if nax < by_.ndim or (fill_value is not None and (provided_expected or nby > 1)):',
+      '        absent_possible = provided_expected or nby >= 2\n        if nax < by_.ndim or (fill_value is not None and absent_possible):', expect="silent"),
     V("dtype promotion memoised with an untyped key", ("C14",), "R-MEMO", "xrdtypes.py", '        dtype = np.result_type(dtype, fill_value)\n    return dtype\n',
       '        dtype = _promote_for_fill_value(dtype, fill_value)\n    return dtype\n\n\n@functools.lru_cache\ndef _promote_for_fill_value(dtype: np.dtype, fill_value) -> np.dtype:\n    return np.result_type(dtype, fill_value)\n', must_mention="typed"),
     V("twin: dtype promotion memoised with typed=True", ("C14",), "", "xrdtypes.py", '        dtype = np.result_type(dtype, fill_value)\n    return dtype\n',
